@@ -23,6 +23,7 @@ import (
 	epb "github.com/google/gce-tcb-verifier/proto/endorsement"
 	"github.com/google/gce-tcb-verifier/sev"
 	"github.com/google/gce-tcb-verifier/tdx"
+	"github.com/google/gce-tcb-verifier/timeproto"
 	"github.com/google/go-sev-guest/proto/sevsnp"
 	"github.com/google/uuid"
 	"google.golang.org/protobuf/proto"
@@ -104,6 +105,15 @@ func mrtd(img []byte, tag, shape, mode string) ([]byte, error) {
 	if err != nil {
 		return nil, err
 	}
+	// ... and, for images of the example layout, the MRTD of the definition (the reference of C05): a
+	// signed entry is compared with the library call, and the library call with the definition
+	refMode := map[string]string{"default": "default", "measure_all": "measure_all"}[mode]
+	if refMode == "" {
+		refMode = "measure_all_ea"
+	}
+	if def, derr := meas.ExampleLayoutMRTD(img, refMode, o.GuestRAMBanks); derr == nil && !bytes.Equal(def, v[:]) && notOfDefinition != nil {
+		notOfDefinition(fmt.Sprintf("the TDX measurement that documents carry for machine shape %q in mode %s is not the MRTD of the launch definition for that configuration", shape, mode))
+	}
 	ldMu.Lock()
 	ldMem[k] = v[:]
 	ldMu.Unlock()
@@ -111,6 +121,9 @@ func mrtd(img []byte, tag, shape, mode string) ([]byte, error) {
 }
 
 var shapeBanks map[string][]ovmf.GuestPhysicalRegion
+
+// notOfDefinition reports a library MRTD that differs from the definition's (set by RunC06)
+var notOfDefinition func(what string)
 
 var ramOf = map[string]uint32{"c3-standard-4": 16, "c3-standard-8": 32, "c3-standard-88": 352}
 
@@ -281,6 +294,7 @@ func RunC06(run *vk.Run) {
 		run.Infra(err)
 		return
 	}
+	notOfDefinition = func(what string) { run.Violation("tdx-entry-not-of-definition", what, nil) }
 	run.AddTLC(em)
 	stride := 1
 	if run.IsQuick() {
@@ -375,7 +389,10 @@ var errStopAfterDoc = fmt.Errorf("stop after the document (harness)")
 
 // docComp sits in the extra slot of the endorse sub-command: it builds the golden document from the
 // request the command's own flag handling has prepared and stops the command before anything is signed.
-type docComp struct{ doc *epb.VMGoldenMeasurement }
+type docComp struct {
+	doc *epb.VMGoldenMeasurement
+	ts  time.Time // the timestamp the command's flag handling put into the request
+}
 
 func (d *docComp) AddFlags(*cobra.Command)                          {}
 func (d *docComp) PersistentPreRunE(*cobra.Command, []string) error { return nil }
@@ -385,6 +402,9 @@ func (d *docComp) InitContext(ctx context.Context) (context.Context, error) {
 		return nil, err
 	}
 	d.doc = doc
+	if ec, eerr := endorse.FromContext(ctx); eerr == nil {
+		d.ts = ec.Timestamp
+	}
 	return nil, errStopAfterDoc
 }
 
@@ -451,6 +471,44 @@ func checkCommandLine(run *vk.Run) {
 				run.Violation("cli-svn", fmt.Sprintf("endorse command (%s, version file %s): tdx.svn is %d, the version file says %d", tech, side, dc.doc.Tdx.Svn, want), rep)
 			}
 			run.Case("cli:"+tech+":"+side, true)
+		}
+	}
+	// the requested instant as the command line spells it: RFC 3339 with any UTC offset names one instant,
+	// and that instant (to the nanosecond) is what the document will carry
+	instant := time.Date(2025, 3, 4, 5, 6, 7, 123456789, time.UTC)
+	for _, sp := range []string{"2025-03-04T05:06:07.123456789Z", "2025-03-04T07:06:07.123456789+02:00", "2025-03-03T21:06:07.123456789-08:00",
+		"2025-03-04T10:51:07.123456789+05:45", "2025-03-04T05:06:07.123456789+00:00"} {
+		dir, err := os.MkdirTemp("", "vk-c06-")
+		if err != nil {
+			run.Infra(err)
+			return
+		}
+		fw := filepath.Join(dir, "fw.fd")
+		os.WriteFile(fw, img2m, 0o600)
+		args := []string{"endorse", "--quiet", "--uefi", fw, "--clspec", "5", "--snp_launch_vmsas", "1", "--add_snp", "--timestamp", sp}
+		dc := &docComp{}
+		root := cmd.MakeApp(context.Background(), &cmd.AppComponents{Endorse: dc, SignatureRandom: rand.Reader})
+		root.SetOut(io.Discard)
+		root.SetErr(io.Discard)
+		root.SilenceErrors, root.SilenceUsage = true, true
+		root.SetArgs(args)
+		var xerr error
+		func() {
+			defer func() {
+				if p := recover(); p != nil {
+					xerr = fmt.Errorf("PANIC: %v", p)
+				}
+			}()
+			xerr = root.Execute()
+		}()
+		os.RemoveAll(dir)
+		run.Case("cli:timestamp:"+sp, true)
+		if dc.doc == nil || xerr != errStopAfterDoc {
+			run.Violation("cli-request-fails", fmt.Sprintf("endorse command with --timestamp %s does not get to the document: %v", sp, xerr), nil)
+			continue
+		}
+		if got := timeproto.To(dc.ts); got == nil || !got.AsTime().Equal(instant) {
+			run.Violation("cli-timestamp", fmt.Sprintf("endorse command with --timestamp %s: the request's timestamp is %s, the instant named is %s", sp, dc.ts.UTC().Format(time.RFC3339Nano), instant.Format(time.RFC3339Nano)), map[string]any{"args": args})
 		}
 	}
 	// machine shapes as the command line spells them: a comma list and a repeated flag both name every
